@@ -496,6 +496,8 @@ BASES = [
     {"plan": ["refuse", "refuse", "refuse"], "tail": "ok"},
     {"plan": ["blackhole", "bad_sig"], "tail": "refuse"},
     {"plan": ["m4_err:2"], "tail": "refuse"},
+    {"plan": ["m4_errc:2"], "tail": "ok"},
+    {"plan": ["refuse", "m2_errc:2"], "tail": "ok"},
     {"plan": ["ok_drop:7"], "tail": "refuse"},
     {"plan": ["wrong_id", "refuse"], "tail": "refuse", "hosts": ["10.0.0.5", "10.0.0.6"]},
     {"plan": ["close_m2", "garbage"], "tail": "ok"},
@@ -548,6 +550,15 @@ def gen_subscribed(ctx):
         yield {"hosts": ["10.0.0.5"], "plan": ["ok_subdrop"], "tail": "ok", "subscribed": True, "triggers": [(t, trig, None)], "horizon": 300}
 
 
+def gen_error_then_hangup(ctx):
+    """The accessory answers a pair-verify step with an error code AND hangs up at once (reply and FIN back to back): the error
+    code decides - Authentication ends the retries, anything else is an ordinary failed attempt."""
+    for first in ("m4_errc:2", "m2_errc:2", "m4_errc:6", "m2_errc:3"):
+        for pre in ([], ["refuse"], ["ok_drop:0.5"]):
+            for tail in ("ok", "refuse"):
+                yield {"hosts": ["10.0.0.5"], "plan": pre + [first], "tail": tail, "horizon": 400}
+
+
 def gen_long(ctx):
     # reach the 60 s cap (12+ failures) and stay there: 2 h of virtual time
     for tail_plan in (["refuse"] * 2, ["blackhole"], ["bad_sig", "close_m2"], ["garbage"]):
@@ -567,7 +578,7 @@ async def run_one(ctx, desc) -> None:
 
 def all_scenarios(ctx):
     rng = ctx.grng("C10.triggers")
-    return itertools.chain(gen_long(ctx), gen_subscribed(ctx), gen_multi(ctx), gen_triggers(ctx, rng), gen_single(ctx))
+    return itertools.chain(gen_long(ctx), gen_error_then_hangup(ctx), gen_subscribed(ctx), gen_multi(ctx), gen_triggers(ctx, rng), gen_single(ctx))
 
 
 def run(ctx) -> None:
